@@ -120,6 +120,26 @@ def run(ctx):
         p = Z.prog(main); p["tag"] = "dict-literal:" + "".join(ks); lprogs.append(p)
     p = Z.prog([Z.decl("L", Z.lst(Z.num(3), Z.num(3), Z.lst(), Z.s("x"))), Z.disp(Z.var("L"), Z.idx(Z.var("L"), Z.num(1)), Z.idx(Z.var("L"), Z.num(4))),
                 Z.iter_(["I", "V"], Z.var("L"), [Z.disp(Z.var("I"), Z.var("V"))]), Z.ex(Z.num(0))]); p["tag"] = "list-literal"; lprogs.append(p)
+    # tables (collections of collections) built in every way - one row variable mentioned in every position, literal rows, rows appended
+    # one by one, a dictionary of rows - copied, then written cell by cell: a read returns the last value written at THAT position
+    R, G, H = Z.var("R"), Z.var("G"), Z.var("H")
+    builders = {
+        "row-variable": [Z.decl("R", Z.lst(Z.num(0), Z.num(0), Z.num(0))), Z.decl("G", Z.lst(R, R, R))],
+        "literal-rows": [Z.decl("G", Z.lst(Z.lst(Z.num(0), Z.num(0), Z.num(0)), Z.lst(Z.num(0), Z.num(0), Z.num(0)), Z.lst(Z.num(0), Z.num(0), Z.num(0))))],
+        "appended-rows": [Z.decl("R", Z.lst(Z.num(0), Z.num(0), Z.num(0))), Z.decl("G", Z.lst()), Z.ex(Z.mcall(G, "@append", R)), Z.ex(Z.mcall(G, "@append", R)), Z.ex(Z.mcall(G, "@append", R))],
+        "nested-row-variable": [Z.decl("R", Z.lst(Z.num(0), Z.num(0), Z.num(0))), Z.decl("Q", Z.lst(R, R)), Z.decl("G", Z.lst(Z.idx(Z.var("Q"), Z.num(1)), Z.idx(Z.var("Q"), Z.num(2)), R))],
+    }
+    for bn, bs in builders.items():
+        for direct in (True, False):
+            main = json.loads(json.dumps(bs)) + ([Z.decl("H", G)] if not direct else [Z.decl("H", Z.lst()), Z.ex(Z.asg(H, G))])
+            for (i, j) in ((1, 1), (2, 3), (3, 2), (2, 1)):
+                main += [Z.ex(Z.asg(Z.idx(Z.idx(H, Z.num(i)), Z.num(j)), Z.num(10 * i + j))), Z.disp(H, G, Z.idx(Z.idx(H, Z.num(j)), Z.num(i)))]
+            main += [Z.ex(Z.mcall(Z.idx(H, Z.num(1)), "@append", Z.num(99))), Z.disp(H, Z.idx(H, Z.num(2)), Z.idx(H, Z.num(3))), Z.ex(Z.num(0))]
+            p = Z.prog(main); p["tag"] = "table:%s:%s" % (bn, "declared-copy" if not direct else "assigned-copy"); lprogs.append(p)
+    DD = Z.var("DD")
+    main = [Z.decl("R", Z.lst(Z.num(0), Z.num(0))), Z.decl("D", Z.dct(["a", "b", "c"], [R, R, R])), Z.decl("DD", Z.var("D")),
+            Z.ex(Z.asg(Z.idx(Z.idx(DD, Z.s("a")), Z.num(1)), Z.num(5))), Z.disp(DD, Z.var("D")), Z.ex(Z.mcall(Z.idx(DD, Z.s("b")), "@append", Z.num(6))), Z.disp(DD, Z.idx(DD, Z.s("c"))), Z.ex(Z.num(0))]
+    p = Z.prog(main); p["tag"] = "table:dictionary-of-rows"; lprogs.append(p)
     lstats, _, _ = Z.run_family(ctx, znh, lprogs, "c12lit")
     # ---- trace validation of long random histories recorded from the real value types
     nh, ln = (30, 500) if ctx.tier == "quick" else (150, 2000)
